@@ -53,6 +53,19 @@ def u(node):
         return '<%s>' % type(node).__name__
 
 
+# every source function whose control flow is regenerated on each run (coverage audit; see tools/coverage_map.py)
+TRANSLATED = [
+    'pyramid/view.py:_find_views', 'pyramid/view.py:_call_view',
+    'pyramid/config/views.py:MultiView.get_views', 'pyramid/config/views.py:MultiView.match',
+    'pyramid/config/views.py:MultiView.__call__', 'pyramid/config/views.py:predicated_view',
+    'pyramid/config/views.py:predicated_view.predicate_wrapper', 'pyramid/config/views.py:predicated_view.checker',
+    'pyramid/config/predicates.py:PredicateList.make',
+] + ['pyramid/predicates.py:%s.__call__' % c for c in (
+    'XHRPredicate', 'RequestMethodPredicate', 'PathInfoPredicate', 'RequestParamPredicate', 'HeaderPredicate',
+    'AcceptPredicate', 'ContainmentPredicate', 'MatchParamPredicate', 'PhysicalPathPredicate',
+    'IsAuthenticatedPredicate', 'CustomPredicate', 'Notted')]
+
+
 # ------------------------------------------------------------------ types
 def LIST(t):
     return 'list:' + t
@@ -448,7 +461,12 @@ class FnTranslator:
                 _, ty = self.expr(s.targets[0].value, env)
             except Problem:
                 return False
-            return ty == 'cache'
+            if ty != 'cache':
+                return False
+            key = s.targets[0].slice
+            if not cache_key_ok(self, key, env) or u(key) not in getattr(self, 'cache_keys', []):
+                raise Problem('cache written under a key that is not the key it was read with: %s' % u(key))
+            return True
         return False
 
     def ret(self, s, env):
@@ -1016,7 +1034,23 @@ def _m_acceptable(tr, n, oobj, env):         # request.accept.acceptable_offers(
     raise Problem('acceptable_offers of a %s' % at)
 
 
+CACHE_KEY_TYPES = sorted(['reqiface', 'ctxiface', 'viewname', 'cls', LIST('vtype')])
+
+
+def cache_key_ok(tr, key, env):
+    """the key must be the tuple of exactly the inputs the lookup result depends on (request iface, context iface,
+    view name, classifier, view types): only then is a cache entry a function of the key, which is what C15 / C05 use
+    when they grant that reading the cache is a miss or the same list"""
+    if not isinstance(key, ast.Tuple) or not all(isinstance(e, ast.Name) for e in key.elts):
+        return False
+    tys = sorted(tr.expr(e, env)[1] for e in key.elts)
+    return tys == CACHE_KEY_TYPES
+
+
 def _m_cache_get(tr, n, oobj, env):          # CACHE: cache.get(key) -> None (a miss); transparency is C15's theorem
+    if len(n.args) != 1 or n.keywords or not cache_key_ok(tr, n.args[0], env):
+        raise Problem('cache key is not the tuple of exactly the lookup inputs: %s' % u(n))
+    tr.cache_keys = getattr(tr, 'cache_keys', []) + [u(n.args[0])]
     return K('None'), NONE
 
 
@@ -1430,6 +1464,14 @@ def translate_tree(src_root, only=None):
         else:
             summary[gen] = 'translated from source (%d lines of Gallina)' % (body.count('\n') + 1)
         out.append('Definition %s %s :=\n  %s.\n' % (gen, spec['sig'], body))
+    for rel in {r for r, _, _ in BINDINGS} | {r for r, _ in CLASS_HEADERS}:
+        if rel not in trees:
+            try:
+                with open(os.path.join(src_root, rel)) as f:
+                    trees[rel] = ast.parse(f.read())
+            except (OSError, SyntaxError):
+                trees[rel] = None
+    check_bindings(trees, problems)
     return '\n'.join(out), problems, summary
 
 
@@ -1453,3 +1495,67 @@ if __name__ == '__main__':
         for p in problems:
             print('PROBLEM:', p)
         print(summary)
+
+
+# ------------------------------------------------------------------ class bodies and module-level bindings the table relies on
+BINDINGS = [   # (file, name, module it must be imported from -- and bound nowhere else at module level)
+    ('pyramid/view.py', 'IView', 'pyramid.interfaces'), ('pyramid/view.py', 'ISecuredView', 'pyramid.interfaces'),
+    ('pyramid/view.py', 'IMultiView', 'pyramid.interfaces'), ('pyramid/view.py', 'IViewClassifier', 'pyramid.interfaces'),
+    ('pyramid/view.py', 'IRequest', 'pyramid.interfaces'), ('pyramid/view.py', 'PredicateMismatch', 'pyramid.exceptions'),
+    ('pyramid/config/views.py', 'PredicateMismatch', 'pyramid.exceptions'),
+    ('pyramid/config/views.py', 'IMultiView', 'pyramid.interfaces'),
+    ('pyramid/config/predicates.py', 'Notted', 'pyramid.predicates'), ('pyramid/config/predicates.py', 'predvalseq', 'pyramid.registry'),
+    ('pyramid/config/predicates.py', 'is_nonstr_iter', 'pyramid.util'), ('pyramid/config/predicates.py', 'bytes_', 'pyramid.util'),
+    ('pyramid/config/predicates.py', 'sha256', 'hashlib'),
+    ('pyramid/predicates.py', 'find_interface', 'pyramid.traversal'), ('pyramid/predicates.py', 'resource_path_tuple', 'pyramid.traversal'),
+]
+# class -> (decorators, bases, class-level statements other than defs/docstrings) as unparsed text
+CLASS_HEADERS = {
+    ('pyramid/config/views.py', 'MultiView'): (['implementer(IMultiView)'], [], []),
+    ('pyramid/config/predicates.py', 'PredicateList'): ([], [], []),
+    ('pyramid/config/predicates.py', 'not_'): ([], [], []),
+    ('pyramid/predicates.py', 'CustomPredicate'): ([], [], []),
+    ('pyramid/predicates.py', 'Notted'): ([], [], []),
+}
+for _c in ('XHRPredicate', 'RequestMethodPredicate', 'PathInfoPredicate', 'RequestParamPredicate', 'HeaderPredicate',
+           'AcceptPredicate', 'ContainmentPredicate', 'MatchParamPredicate', 'PhysicalPathPredicate',
+           'IsAuthenticatedPredicate'):
+    CLASS_HEADERS[('pyramid/predicates.py', _c)] = ([], [], ['phash = text'])   # phash() is text(): the model's pred_phash
+
+
+def check_bindings(trees, problems):
+    for rel, name, module in BINDINGS:
+        tree = trees.get(rel)
+        if tree is None:
+            continue
+        got = []
+        for st in ast.walk(tree):
+            if isinstance(st, ast.ImportFrom):
+                for al in st.names:
+                    if (al.asname or al.name) == name:
+                        got.append('from %s import %s' % (st.module, al.name))
+        for st in tree.body:
+            if isinstance(st, (ast.FunctionDef, ast.ClassDef)) and st.name == name:
+                got.append('def/class')
+            if isinstance(st, (ast.Assign, ast.AnnAssign, ast.AugAssign)):
+                for tg in (st.targets if isinstance(st, ast.Assign) else [st.target]):
+                    if any(isinstance(n, ast.Name) and n.id == name for n in ast.walk(tg)):
+                        got.append('assign')
+        if got != ['from %s import %s' % (module, name)]:
+            problems.append('translator: binding of %s in %s is %s, expected exactly `from %s import %s`'
+                            % (name, rel, got or 'missing', module, name))
+    for (rel, cname), (decs, bases, stmts) in CLASS_HEADERS.items():
+        tree = trees.get(rel)
+        if tree is None:
+            continue
+        cls = [c for c in tree.body if isinstance(c, ast.ClassDef) and c.name == cname]
+        if len(cls) != 1:
+            problems.append('translator: class %s not found exactly once in %s' % (cname, rel))
+            continue
+        c = cls[0]
+        other = [u(st) for st in c.body if not isinstance(st, ast.FunctionDef)
+                 and not (isinstance(st, ast.Expr) and isinstance(st.value, ast.Constant) and isinstance(st.value.value, str))]
+        got = ([u(d) for d in c.decorator_list], [u(b) for b in c.bases] + [u(k) for k in c.keywords], other)
+        if got != (decs, bases, stmts):
+            problems.append('translator: header / class-level statements of %s in %s are %s, expected %s'
+                            % (cname, rel, got, (decs, bases, stmts)))
